@@ -81,7 +81,8 @@ func moduleSource(c *graphCase, i int) string {
 	b.WriteString("（显示：“run-" + n + "”）\n")
 	b.WriteString("如何" + fnName(n, 1) + "？\n    输出“" + n + "-1”\n")
 	b.WriteString("如何" + fnName(n, 2) + "？\n    令物 = （新建" + clsName(n) + "）\n    输出【（" + fnName(n, 1) + "），物之名】\n")
-	b.WriteString("定义" + clsName(n) + "：\n    其名 = “" + n + "-obj”\n")
+	b.WriteString("如何" + fnName(n, 3) + "？\n    输出（新建" + clsName(n) + "）\n")
+	b.WriteString("定义" + clsName(n) + "：\n    其名 = “" + n + "-obj”\n    如何报？\n        输出其名\n")
 	b.WriteString("令局部" + fmt.Sprint(i) + " = 1\n")
 	return b.String()
 }
@@ -229,6 +230,14 @@ func checkGraph(c *graphCase) []h.Failure {
 		}
 		c2 := *c
 		c2.Expect = "ok:" + strings.TrimPrefix(c.Expect, "ok-or-import-error:")
+		c = &c2
+	}
+	if strings.HasPrefix(c.Expect, "error-or-ok:") {
+		if o.Kind == h.KError {
+			return nil
+		}
+		c2 := *c
+		c2.Expect = "ok:" + strings.TrimPrefix(c.Expect, "error-or-ok:")
 		c = &c2
 	}
 	if c.Expect == "error" {
@@ -418,7 +427,7 @@ func TestRandomGraphs(t *testing.T) {
 					dup = true
 				}
 			}
-			switch rapid.IntRange(0, 10).Draw(t, "probe") {
+			switch rapid.IntRange(0, 12).Draw(t, "probe") {
 			case 0: // assignment to an imported name
 				c.Probe = fnName(m, 1) + " = 5\n"
 				c.Expect = "error"
@@ -495,6 +504,18 @@ func TestRandomGraphs(t *testing.T) {
 						}
 					}
 				}
+			case 9: // an object handed out by an imported method is usable where its type is NOT imported
+				if !dup {
+					c.Select[0][0] = fnName(m, 3)
+					c.Probe = "令物 = （" + fnName(m, 3) + "）\n（显示：“obj”、{以物（报）}、物之名）\n"
+					c.Expect = "ok:obj " + m + "-obj " + m + "-obj"
+					labels = append(labels, "probe:object-of-unimported-type")
+				}
+			case 10: // an importer declaring a constructor for an imported type: rejected, or at
+				// least without effect on how the exporting module creates its own objects
+				c.Probe = "如何新建" + clsName(m) + "？\n    其名 = “篡改”\n令造物 = （" + fnName(m, 3) + "）\n（显示：“made”、{以造物（报）}）\n"
+				c.Expect = "error-or-ok:made " + m + "-obj"
+				labels = append(labels, "probe:constructor-for-imported-type")
 			case 5: // the module's type is usable from main
 				c.Probe = "（显示：“ty”、（新建" + clsName(m) + "）之名）\n"
 				c.Expect = "ok:ty " + m + "-obj"
